@@ -73,6 +73,8 @@ pub fn creds_alphabet() -> Vec<Creds> {
         Creds::Short("p\u{e4}ssw\u{f6}rd \u{2603}".into()),
         Creds::Long { user: "a:b".into(), realm: "r".into(), pass: "p".into() },
         Creds::Long { user: "".into(), realm: "".into(), pass: "".into() },
+        Creds::Long { user: "MixedCase User".into(), realm: "Realm.EXAMPLE".into(), pass: "PassWord".into() },
+        Creds::Short("UPPER lower".into()),
     ]
 }
 
